@@ -247,3 +247,8 @@ def run(ctx):
     r = ctx.rule('R12c', 'op tables complete and self-consistent')
     shared.rule_op_tables(ctx, P, r)
     r.require_min(20)
+
+    r = ctx.rule('R06f', 'bitmaps built from index lists are consumed only through single-bit tests',
+                 'convert_list_to_bitmap sign-extends at index 31: a population count or whole-word comparison miscounts stripes that use fragment 31')
+    shared.rule_list_bitmaps(ctx, P, r)
+    r.require_min(1)
